@@ -117,7 +117,8 @@ type thread struct {
 	atVal  *val
 	inOp   bool // the current operation has started
 	resume chan cmd
-	lsVal  int // LoadOrStore in progress: number of its value
+	lsVal  int  // LoadOrStore in progress: number of its value
+	lsObj  *val // … and the value object
 }
 
 func (t *thread) done() bool { return t.pc >= len(t.prog) }
@@ -135,6 +136,9 @@ type controller struct {
 }
 
 var active atomic.Pointer[controller]
+
+// pointLoadOrStoreRetry = caddy.VerifUPLoadOrStoreRetry (usagepool_verif.go)
+const pointLoadOrStoreRetry = 7
 
 var stressTick atomic.Uint64
 
@@ -222,7 +226,8 @@ func (t *thread) exec(o op, k cmd) (r ret) {
 		r.v, r.badType = asVal(x)
 		r.loaded, r.err = loaded, err != nil
 	case opLS:
-		x, loaded := c.up.LoadOrStore(o.key, &val{id: k.valID, key: o.key, c: c})
+		t.lsObj = &val{id: k.valID, key: o.key, c: c}
+		x, loaded := c.up.LoadOrStore(o.key, t.lsObj)
 		r.v, r.badType = asVal(x)
 		r.loaded = loaded
 	case opDel, opCD:
@@ -322,11 +327,9 @@ func (c *controller) enabled(t *thread) bool {
 	switch t.at {
 	case mYield:
 		switch t.atPt {
-		case caddy.VerifUPLoadOrNewWait, caddy.VerifUPDeleteRead, caddy.VerifUPRangeVisit:
+		case caddy.VerifUPLoadOrNewWait, caddy.VerifUPLoadOrStoreWait, caddy.VerifUPDeleteRead:
 			return tryR(t.atLock)
-		case caddy.VerifUPLoadOrStoreWait:
-			return tryW(t.atLock)
-		case caddy.VerifUPLoadOrNewFail:
+		case caddy.VerifUPLoadOrNewFail, pointLoadOrStoreRetry:
 			return tryW(&c.up.RWMutex)
 		}
 	}
@@ -388,7 +391,7 @@ func rngStr(items []rngItem) string {
 // stepResult is one executed schedule entry as seen on the implementation.
 type stepResult struct {
 	tok    string // event token (without thread prefix)
-	silent bool   // drain only: the goroutine made no visible progress (blocked Range), emit nothing
+	silent bool   // (unused since Range is a single region)
 	hang   bool
 	op     op
 	m      msg // the message that ended the step (mRet carries the return values)
@@ -420,34 +423,29 @@ func (c *controller) turn(t *thread, holds holdsFn, absentBefore func(key int) b
 	}
 	k := cmd{}
 	first := !t.inOp
-	if first && o.kind == opLS {
+	// LoadOrStore starting over after the loaded entry's constructor failed: the same value
+	// object goes into the new attempt under a fresh number (value numbers name attempts)
+	restart := t.inOp && o.kind == opLS && t.at == mYield && t.atPt == pointLoadOrStoreRetry
+	if (first || restart) && o.kind == opLS {
 		k.valID = c.nextVal
 		c.nextVal++
 		t.lsVal = k.valID
+		if restart && t.lsObj != nil {
+			t.lsObj.id = k.valID
+		}
 	}
 	wasAbsent := false
 	if first && (o.kind == opDel || o.kind == opCD) {
 		wasAbsent = absentBefore(o.key)
 	}
-	wasRanging := t.inOp && t.at == mYield && t.atPt == caddy.VerifUPRangeVisit
 	c.current = t
 	t.resume <- k
 	t.inOp = true
-	var m msg
-	for {
-		var ok bool
-		m, ok = c.wait()
-		if !ok {
-			c.current = nil
-			res.tok, res.hang = "hang", true
-			return res
-		}
-		// Range: keep going while the next entry's lock is free
-		if m.kind == mYield && m.point == caddy.VerifUPRangeVisit && tryR(m.lock) {
-			t.resume <- cmd{}
-			continue
-		}
-		break
+	m, ok := c.wait()
+	if !ok {
+		c.current = nil
+		res.tok, res.hang = "hang", true
+		return res
 	}
 	c.current = nil
 	res.m = m
@@ -486,7 +484,7 @@ func (c *controller) turn(t *thread, holds holdsFn, absentBefore func(key int) b
 		default:
 			res.tok = unexpected()
 		}
-	case o.kind == opLS && first:
+	case o.kind == opLS && (first || restart):
 		switch {
 		case m.kind == mRet && !r.loaded:
 			res.tok = "Ss" + valStr(r.v)
@@ -496,9 +494,12 @@ func (c *controller) turn(t *thread, holds holdsFn, absentBefore func(key int) b
 			res.tok = unexpected()
 		}
 	case o.kind == opLS:
-		if m.kind == mRet && r.loaded {
+		switch {
+		case m.kind == mRet && r.loaded:
 			res.tok = "L" + valStr(r.v)
-		} else {
+		case m.kind == mYield && m.point == pointLoadOrStoreRetry:
+			res.tok = "Lr"
+		default:
 			res.tok = unexpected()
 		}
 	case (o.kind == opDel || o.kind == opCD) && first:
@@ -526,31 +527,19 @@ func (c *controller) turn(t *thread, holds holdsFn, absentBefore func(key int) b
 		default:
 			res.tok = unexpected()
 		}
-	case o.kind == opRef && first:
+	case o.kind == opRef:
 		switch {
 		case m.kind == mRet && !r.present:
 			res.tok = "Pn"
-		case m.kind == mYield && m.point == caddy.VerifUPReferencesLoad:
-			res.tok = "Pf"
-		default:
-			res.tok = unexpected()
-		}
-	case o.kind == opRef:
-		if m.kind == mRet && r.present {
+		case m.kind == mRet:
 			res.tok = "Q" + strconv.Itoa(r.n)
-		} else {
+		default:
 			res.tok = unexpected()
 		}
 	case o.kind == opRng:
-		switch {
-		case m.kind == mRet:
+		if m.kind == mRet {
 			res.tok = "G" + rngStr(r.rng)
-		case m.kind == mYield && m.point == caddy.VerifUPRangeVisit && !wasRanging:
-			res.tok = "Gb"
-		case m.kind == mYield && m.point == caddy.VerifUPRangeVisit:
-			res.tok = "B"
-			res.silent = inDrain
-		default:
+		} else {
 			res.tok = unexpected()
 		}
 	}
